@@ -724,14 +724,58 @@ func (x *Exec) mapDelete(p *Path, m SV, key string) {
 		"MCard": fmt.Sprintf("(store (MCard %s) %s (ite %s (- (select (MCard %s) %s) 1) (select (MCard %s) %s)))", p.H, m.T, dom, p.H, m.T, p.H, m.T)})
 }
 
+// execRange: `range m` over a map fixes a ghost enumeration ord[0..n) of the key set
+// (arbitrary but one-to-one and onto), so that the loop becomes an indexed loop and
+// "for every iteration order" is built in.
 func (x *Exec) execRange(p *Path, v *ssa.Range) bool {
-	x.errorf("%s: range over map/string not yet supported at %s", x.cur.ct.Func, x.pos(v))
-	return false
+	m := x.val(p, v.X)
+	if m.K != KMap {
+		x.errorf("%s: range over %s not supported at %s", x.cur.ct.Func, v.X.Type(), x.pos(v))
+		return false
+	}
+	ord := x.fresh("ord")
+	inv := x.fresh("ordinv")
+	n := x.fresh("ordn")
+	p.declare(ord, "(Array Int Str)")
+	p.declare(inv, "(Array Str Int)")
+	p.declare(n, "Int")
+	dom := fmt.Sprintf("(select (MDom %s) %s)", p.H, m.T)
+	p.assume(fmt.Sprintf("(= %s (select (MCard %s) %s))", n, p.H, m.T))
+	p.assume(fmt.Sprintf("(<= 0 %s)", n))
+	p.assume(fmt.Sprintf("(forall ((i Int)) (! (=> (and (<= 0 i) (< i %s)) (and (select %s (select %s i)) (= (select %s (select %s i)) i))) :pattern ((select %s i))))", n, dom, ord, inv, ord, ord))
+	p.assume(fmt.Sprintf("(forall ((k Str)) (! (=> (select %s k) (and (<= 0 (select %s k)) (< (select %s k) %s) (= (select %s (select %s k)) k))) :pattern ((select %s k))))", dom, inv, inv, n, ord, inv, inv))
+	p.assume(fmt.Sprintf("(isEnum %s %s %s)", ord, dom, n))
+	c := x.alloc(p, "KCELL", 1)
+	x.store1(p, "CInt", c, "0")
+	x.bind(p, v, SV{K: KIter, T: m.T, Loc: &Loc{Kind: "cell", Cell: c}, Arr: ord, Off: inv, Len: n, MapT: m.MapT})
+	x.assumptions["a map is not modified while it is being ranged over (checked: the loop frame excludes it)"] = true
+	return true
 }
 
 func (x *Exec) execNext(p *Path, v *ssa.Next) bool {
-	x.errorf("%s: next not yet supported", x.cur.ct.Func)
-	return false
+	it := x.val(p, v.Iter)
+	if it.K != KIter {
+		x.errorf("%s: next on %s", x.cur.ct.Func, it.String())
+		return false
+	}
+	pos := x.define(p, "pos", term(fmt.Sprintf("(select (CInt %s) %s)", p.H, it.Loc.Cell), SInt))
+	ok := x.fresh("more")
+	p.declare(ok, "Bool")
+	p.assume(fmt.Sprintf("(= %s (< %s %s))", ok, pos.T, it.Len))
+	key := x.define(p, "key", term(fmt.Sprintf("(select %s %s)", it.Arr, pos.T), SStr))
+	raw := fmt.Sprintf("(select (select (MVal %s) %s) %s)", p.H, it.T, key.T)
+	val := unwrapElem(it.MapT.Elem(), raw)
+	val = x.define(p, "mval", val)
+	if val.K == KTerm && val.S == SVal {
+		val.Go = it.MapT.Elem()
+	}
+	x.store1(p, "CInt", it.Loc.Cell, fmt.Sprintf("(ite %s (+ %s 1) %s)", ok, pos.T, pos.T))
+	if p.wfKnown != "" {
+		p.assume(fmt.Sprintf("(wf %s)", p.H)) // iterator cells are not mentioned by wf
+		p.wfKnown = p.H
+	}
+	x.bind(p, v, SV{K: KTuple, Tup: []SV{term(ok, SBool), key, val}})
+	return true
 }
 
 func (x *Exec) execGo(p *Path, v *ssa.Go, work *[]*Path) bool {
